@@ -674,6 +674,36 @@ def standard_main(mod):
         run.cleanup()
 
 
+def run_lines_crash_safe(cmd, lines, env=None, max_crashes=3):
+    """run_lines for a STATELESS line protocol, but a request on which the process dies (signal, sanitizer abort) is answered
+    `crash <reason>` instead of losing the batch (bisection); after max_crashes crashing requests the rest is `skipped`"""
+    import re as _re
+    out, pos, crashes, chunk = [], 0, 0, len(lines)
+    while pos < len(lines):
+        if crashes >= max_crashes:
+            out += ["skipped"] * (len(lines) - pos)
+            break
+        part = lines[pos:pos + chunk]
+        try:
+            out += run_lines(cmd, part, env=env)
+            pos += len(part)
+            chunk = len(lines)
+            continue
+        except HarnessError as e:
+            err = str(e)
+        if len(part) == 1:
+            m = _re.search(r"rc=(-?\d+)", err)
+            msg = [l for l in err.split("\n") if "runtime error" in l or "ERROR" in l]
+            txt = msg[0].strip()[-160:] if msg else ("signal %d" % -int(m.group(1)) if m and int(m.group(1)) < 0 else err.split("stderr:")[0].strip()[-80:])
+            out.append("crash " + " ".join(_re.sub(r"0x[0-9a-fA-F]+", "0x..", txt).split()))
+            crashes += 1
+            pos += 1
+            chunk = len(lines)
+        else:
+            chunk = max(1, len(part) // 2)
+    return out
+
+
 def flow(run, mod):
     broken = []          # descriptions of proof obligations / ties that do not check
     # 1. translators
